@@ -23,7 +23,12 @@ PartOps   == {"parts_drop", "parts_dup", "parts_permute", "parts_recombine"}
 \* values the proxy never produced: the signed envelope removed (payload alone, decoded or not, re-encoded), and a cookie the
 \* attacker planted in the browser BEFORE the login (hand-made ticket / payload): neither may ever load as a session
 ForeignOps == {"strip_envelope", "planted"}
+\* the stream cipher that hides the session is malleable: whoever knows the plaintext of the LAST cipher block (the holder of a session
+\* knows his own) can rewrite it without any key - end of the last field and the compression frame's checksum included.  Only the
+\* MAC stands between that and a forged session, so this is the operator that tells whether the MAC covers the value to its end.
+CraftedOps == {"known_plaintext_tail"}
 Ops(c) == FieldOps \cup PairOps \cup NameOps \cup ForeignOps \cup (IF Split(c) THEN PartOps ELSE {})
+          \cup (IF c \in {"cookie1", "cookie2", "cookie3"} THEN CraftedOps ELSE {})
 
 VARIABLE c
 Init == \E cr \in Creds, sf \in SecretForms : \E op \in Ops(cr) : c = [cred |-> cr, op |-> op, secret |-> sf, stride |-> Stride]
